@@ -104,6 +104,8 @@ Apply(tree, depth, a) ==
     [] a.op \in {"get", "getpos", "len", "noop", "obs"} -> Outcome(tree, "ok")      \* observers
     [] a.op = "hwrite" ->                   \* write through a handle obtained earlier by getPayloadRef(*pt)
          Outcome(PutPath(tree, a.pt, Leaf(WriteVal(a.kind, AtPath(tree, a.pt).v, a.v))), "ok")
+    [] a.op = "setroot" ->                  \* Tensor.setRoot(fiber) on a tensor that already has a root: the tree IS the given fiber from then on
+         Outcome(Fib(a.other), "ok")
     [] a.op = "dlookup" ->                  \* deprecated insertOrLookup(c) without a value: the element is created if absent (like getPayloadRef)
          Outcome(Ensure(tree, Append(a.path, a.c), depth), "ok")
     [] a.op = "dinsert" ->                  \* deprecated insert(c, v) on a leaf fiber: the coordinate holds v afterwards, stored once
